@@ -64,6 +64,13 @@ def rel_vector(mode, k, pos=0):
         return [float(i + 1) for i in range(k)]
     if mode == "one10":
         return [10.0 if i == pos % k else 0.2 for i in range(k)]
+    # vectors with REPEATED values that are not all equal: a column's width also occurs at other columns
+    if mode == "alt21":
+        return [2.0 if i % 2 == 0 else 1.0 for i in range(k)]
+    if mode == "alt13":
+        return [1.0 if i % 2 == 0 else 3.0 for i in range(k)]
+    if mode == "pairs221":
+        return [1.0 if i % 3 == 2 else 2.0 for i in range(k)]
     raise ValueError(mode)
 
 
@@ -488,6 +495,20 @@ def stack_cases(kmax):
     return cases
 
 
+def repeated_width_cases(kmax):
+    """col_rel_width vectors with repeated, not all equal values x every removal (1 and 2 columns, page_by / subline_by, every
+    position): the width that must go is identified by the column's position, not by its value"""
+    cases = []
+    for k in range(1, kmax + 1):
+        for rem in removals(k):
+            if not rem:
+                continue
+            for rel in ("alt21", "alt13", "pairs221"):
+                for hm, cw in (("explicit_own", 6.25), ("default", 8.5)):
+                    cases.append({"k": k, "header": hm, "col_width": cw, "removal": rem, "rel": rel})
+    return cases
+
+
 def multi_cases(kmax):
     cases = []
     ks = list(range(1, kmax + 1))
@@ -526,7 +547,8 @@ def plan(run):
                 "spanning, two-row with inheriting second row, none} x column removal {none, page_by/subline_by x first/middle/last, "
                 "three 2-column removals} x col_width {2, 6.25, 8.5, 12} with table footnote and source; radius-2 ball over orientation, "
                 "footnote, source, nrow, new_page/pageby_row, pageby_header, row count, default col_width around anchors; 2-/3-section "
-                "documents with different column counts; header stacks (1-3 header rows whose cell count may differ from the column count: one "
+                "documents with different column counts; col_rel_width vectors with repeated, not all equal values ([2,1,2,1..], [1,3,1,3..], "
+                "[2,2,1,2,2,1..]) x every removal x 2 header modes; header stacks (1-3 header rows whose cell count may differ from the column count: one "
                 "full-span cell, 2 or ncols-1 cells, all columns; each such row with an explicit col_rel_width of its own length given as a "
                 "one-element list, a scalar or a list, label rows inheriting or own) x column count x 4 removals x 2 width modes x 2 col_widths, "
                 "also in nested / flat multi-section headers; body/header objects re-used from an earlier document of another column count. "
@@ -552,6 +574,8 @@ def plan(run):
                 anchors.append(a)
     bcases = [c for a in anchors for c in ball(a, 2)]
     run.layer("ball-r2", "mc.props.c08:eval_case", bcases, chunk=50, total=len(bcases))
+    wcases = repeated_width_cases(kmax)
+    run.layer("repeated-widths", "mc.props.c08:eval_case", wcases, chunk=40, total=len(wcases))
     scases = stack_cases(kmax)
     run.layer("header-stacks", "mc.props.c08:eval_case", scases, chunk=40, total=len(scases))
     mcases = multi_cases(4 if quick else 6)
